@@ -24,7 +24,12 @@ func runC13(c *Ctx) {
 	R.Rules["E5.leave"] = "leave is a synchronous round trip through the manager that deletes exactly the given key (premise of the close exception; a skipped round trip leaves a session pointing at a closed channel)"
 	R.Rules["E5.stop-order"] = "teardown leaves the registry before anything else and runs once (commands are not routed to a connection that is being torn down)"
 	R.Rules["E5.timeout"] = "every command accepted by a connection gets a completion source: the write error path completes it at once, otherwise a timeout goroutine is started whenever the configured duration is >= 0 (0 means the default)"
-	leaveSync := c.sessionRules(false)
+	R.Rules["E5.confine"] = "the key→session map is created in the manager goroutine and never leaves it (premise of the rules below)"
+	R.Rules["E5.insert-if-absent"] = "a join inserts only after a failed lookup of the same key and otherwise answers with the key-exists error, performing no update: a refused duplicate - whose teardown closes its own command channel and leaves with the empty key - never becomes the registry's entry for the key (the next command to the key would be sent on a closed channel and end the process)"
+	R.Rules["E5.own-key"] = "a connection records a key as its own only after the join succeeded"
+	R.Rules["E5.refuse"] = "the key-exists refusal ends only the refused connection"
+	R.Rules["E5.route"] = "commands are routed through the same map: hit → that session's channel, miss → immediate not-exist error"
+	leaveSync := c.sessionRules(true)
 	ri := c.serviceRoles()
 	// ---- closes and sends per channel field of connection
 	type site struct {
@@ -454,6 +459,71 @@ func (c *Ctx) timeoutRule() {
 			st = report.Violated
 		}
 		R.Add("E5.timeout", "connection.onActiveEvent / a timeout goroutine is started for every duration >= 0", c.P.RelPos(onActive.Pos()), st, d)
+	}
+	// the timer's result is delivered: the goroutine hands its message to the completion channel with a blocking send,
+	// alone or in a select whose other arms only wait for the connection to stop (no default arm, no other way out)
+	{
+		nSend := 0
+		ok, d := true, ""
+		var timerFns []*ssa.Function
+		for _, f0 := range c.familyOf(onActive) {
+			for _, b := range f0.Blocks {
+				for _, ins := range b.Instrs {
+					if g, isG := ins.(*ssa.Go); isG {
+						start := g.Call.StaticCallee()
+						if start == nil {
+							start = funcOfValue(g.Call.Value)
+						}
+						if start != nil && c.P.IsRepoFunc(start) {
+							timerFns = append(timerFns, c.familyOf(start)...)
+						}
+					}
+				}
+			}
+		}
+		for _, f := range timerFns {
+			for _, b := range f.Blocks {
+				for _, ins := range b.Instrs {
+					switch x := ins.(type) {
+					case *ssa.Send:
+						if _, fl, isF := fieldLoad(x.Chan); isF && fl == "activeMsgCompleteChan" {
+							nSend++
+						}
+					case *ssa.Select:
+						sends := false
+						for _, stt := range x.States {
+							if _, fl, isF := fieldLoad(stt.Chan); isF && fl == "activeMsgCompleteChan" && stt.Dir == types.SendOnly {
+								sends = true
+							}
+						}
+						if !sends {
+							continue
+						}
+						nSend++
+						if !x.Blocking {
+							ok, d = false, "the timeout result is offered to the completion channel in a select with a default arm (at "+c.P.RelPos(x.Pos())+"): when the channel's buffer is momentarily full - several commands time out together, or the writer is busy - the result is dropped, the record stays and the caller of SendActiveMessage waits forever"
+						}
+						for _, stt := range x.States {
+							_, fl, isF := fieldLoad(stt.Chan)
+							if isF && fl == "activeMsgCompleteChan" {
+								continue
+							}
+							if !isF || fl != "stopChan" || stt.Dir != types.RecvOnly {
+								ok, d = false, "the select that delivers the timeout result has an arm other than the stop channel (at "+c.P.RelPos(x.Pos())+"): the result can be abandoned while the connection is alive"
+							}
+						}
+					}
+				}
+			}
+		}
+		if nSend == 0 {
+			ok, d = false, "the timeout goroutine never sends to the completion channel"
+		}
+		st := report.Discharged
+		if !ok {
+			st = report.Violated
+		}
+		R.Add("E5.timeout", "connection.onActiveEvent / the timeout result is delivered unless the connection stops", c.P.RelPos(onActive.Pos()), st, d)
 	}
 	// the time waited is the configured duration itself (or the constant default): by def-use, the argument of the
 	// waiting primitive in the goroutine started by onActiveEvent is only the OverTimeDuration field or a constant -
